@@ -52,3 +52,30 @@ prop("C19",
      design_ref="DESIGN.md section 6, C19",
      trusted=["the ghost write counters of the abstract MetadataSource / DataSource count every mutating interface method (interface contract)"],
      )
+
+MRL = "runner_local:memento_run_local"
+BR = "runner_local:LocalRunnerBackend.batch_run"
+RUNNER_ASSUME = ["user function bodies are deterministic functions of the call key (outcome, value, exception) and never return MementoException instances",
+                 "function bodies only add to the store (no forget inside a body); any successful read of a memento for key k returns the memoized value of k",
+                 "an I/O error during memoize leaves the store view unchanged (C08 examines this)",
+                 "InvocationContext / RecursiveContext / LocalContext are modelled as immutable records; update_recursive is a functional field update (assumed model of the __dict__-based classes)",
+                 "the thread-local call stack is a per-thread singleton; no other thread interleaves (C09 is not applicable)"]
+
+prop("C02", modules=["runner"], functions=[MRL, "runner:process_existing_memento"], split={MRL: 12},
+     design_ref="DESIGN.md section 6, C02",
+     trusted=["interface contract of the abstract StorageBackend (dictionary view) -- refined by StorageBackendBase under C05",
+              "MementoException.from_exception / to_exception round trip and ResultType.from_object are assumed contracts here"],
+     assumptions=RUNNER_ASSUME)
+prop("C10", modules=["runner"], functions=["runner_local:propagate_dependencies", MRL, BR], split={MRL: 12, BR: 14},
+     design_ref="DESIGN.md section 6, C10",
+     trusted=["interface contract of the abstract StorageBackend", "induction over the call tree (DESIGN 6, C10 lemma)"],
+     assumptions=RUNNER_ASSUME)
+prop("C15", modules=["runner"], functions=[BR], split={BR: 14},
+     design_ref="DESIGN.md section 6, C15",
+     trusted=["memento_run_local's contract (proved under C02)", "interface contract of the abstract StorageBackend"],
+     assumptions=RUNNER_ASSUME)
+prop("C16", modules=["runner"], functions=["runner_local:memento_run_batch"],
+     design_ref="DESIGN.md section 6, C16",
+     trusted=["RunnerBackend.batch_run of an arbitrary runner is opaque: the proof is about what is dispatched to it",
+              "FunctionReferenceWithArguments.__init__ keeps its four arguments (C04 examines it)"],
+     assumptions=RUNNER_ASSUME)
